@@ -1,1 +1,423 @@
+// Package arrays: C15 — array streams round-trip for every data type that registers both an array
+// writer and an array reader, and `foreach` runs its body exactly once per element, in order.
+// Bounded-exhaustive enumeration of lists over per-type legal element sets.
 package arrays
+
+import (
+	"context"
+	"encoding/json"
+	"fmt"
+	"strings"
+
+	"verif/checks/g3util"
+	"verif/mx"
+	"verif/vlib"
+
+	"github.com/lmorg/murex/builtins/pipes/streams"
+	"github.com/lmorg/murex/lang/stdio"
+)
+
+// bigToken stands for the 60 KiB element in witnesses (so that a witness stays printable).
+const bigToken = "@BIG"
+
+var big = func() string {
+	var b strings.Builder
+	for i := 0; b.Len() < 60*1024; i++ {
+		fmt.Fprintf(&b, "%07d|", i) // position-dependent content: loss, duplication or reordering of a chunk is visible
+	}
+	return b.String()[:60*1024]
+}()
+
+func expand(e string) string { return strings.ReplaceAll(e, bigToken, big) }
+
+// plain is the element every alphabet shares and that no writer/reader should be able to mangle.
+type treatment struct {
+	mode   string // "strict", "excluded"
+	reason string
+	alpha  []string
+	filler string // the plain element (non-triviality rule, filler around the 60 KiB element)
+	bigEl  string
+	// loose: compare modulo surrounding JSON-insignificant whitespace (jsonc elements are documents)
+	loose  bool
+	levels []string
+}
+
+var bothLevels = []string{"api", "foreach"}
+
+// The general element set of DESIGN §C15: single-line, no leading/trailing whitespace, no tab.
+var general = []string{"a", "[1]", "q\"uote", "x y", "é", "{", ""}
+
+// jsonc ("concatenated JSON") carries JSON documents; its reader rejects anything whose first byte
+// is not { or [ (a scalar is not a legal element), so its alphabet is compact JSON objects.
+var jsoncAlpha = []string{`{"a":1}`, `{"b":"x y"}`, `{}`, `{"c":[1]}`, `{"d":"é"}`, `{"e":"q\"uote"}`, `{"k":"}"}`}
+
+// jsonl ("JSON lines"): the array reader hands every line over verbatim (checked with the general
+// set at the api level), but foreach types each element as json, so a line that is not a JSON value
+// is outside the type's alphabet there; the foreach level uses JSON-encoded values.
+var jsonlDocs = []string{`"a"`, `[1]`, `"q\"uote"`, `"x y"`, `"é"`, `{"k":"}"}`, `""`}
+
+// treat returns the enumeration variants of a type; the first one also carries the type's mode.
+func treat(dt string) []treatment {
+	switch dt {
+	case "toml":
+		return []treatment{{mode: "excluded", reason: "toml: the array writer refuses by design (\"the TOML specification doesn't support naked arrays\")", alpha: general, filler: "a", bigEl: bigToken, levels: bothLevels}}
+	case "path", "paths":
+		return []treatment{{mode: "excluded", reason: dt + ": elements are path segments, not free strings (the empty list reads back as the root)", alpha: general, filler: "a", bigEl: bigToken, levels: bothLevels}}
+	case "jsonc":
+		return []treatment{{mode: "strict", alpha: jsoncAlpha, filler: `{"a":1}`, bigEl: `{"k":"` + bigToken + `"}`, loose: true, levels: bothLevels}}
+	case "jsonl":
+		return []treatment{
+			{mode: "strict", alpha: general, filler: "a", bigEl: bigToken, levels: []string{"api"}},
+			{mode: "strict", alpha: jsonlDocs, filler: `"a"`, bigEl: `"` + bigToken + `"`, levels: bothLevels},
+		}
+	}
+	// `*`, generic, str, string, json, yaml, xml and any type registered later
+	return []treatment{{mode: "strict", alpha: general, filler: "a", bigEl: bigToken, levels: bothLevels}}
+}
+
+// fillers: the plain elements (trivial cases; replacement candidates of the minimiser).
+var fillers = []string{"a", `"a"`, `{"a":1}`}
+
+func isFiller(e string) bool { return e == fillers[0] || e == fillers[1] || e == fillers[2] }
+
+type wit struct {
+	Level string   `json:"level"` // "api" or "foreach"
+	Type  string   `json:"type"`
+	List  []string `json:"list"`
+}
+
+func types() []string {
+	in := map[string]bool{}
+	for _, r := range stdio.DumpReadArray() {
+		in[r] = true
+	}
+	var out []string
+	for _, w := range stdio.DumpWriteArray() { // sorted by murex
+		if in[w] {
+			out = append(out, w)
+		}
+	}
+	return out
+}
+
+func init() {
+	vlib.Register(&vlib.Check{
+		ID: "C15", Engine: "E2",
+		Rule:   "data types = stdio.DumpWriteArray ∩ stdio.DumpReadArray at run time. Per type: every list of 0..L elements (L=4 quick, 5 thorough) over {a, [1], q\"uote, 'x y', é, {, \"\"} (jsonc: 7 compact JSON objects incl. one with } inside a string, compared modulo surrounding whitespace; jsonl: the general set at the api level only, plus 7 JSON-encoded values at both levels because foreach types jsonl elements as json), cyclic lists of 10/25/50 elements at every start offset, and lists of 1..3 elements with one position-stamped 60 KiB element at each position. level api: streams.NewStdin, SetDataType, WriteArray(dt), WriteString per element, Close, then ReadArray must call back with the same list in order; level foreach: the bytes produced by that writer are the dt-typed stdin of `<stdin> -> foreach v { out \"<$v>\" }` whose stdout must be exactly one <element> line per element in order. toml, path and paths are run but not asserted (reason recorded in notes). non-trivial = the list contains at least one element other than the plain filler element (a / \"a\" / {\"a\":1}), i.e. something a writer or reader could mangle",
+		Run:    run,
+		Replay: replay,
+		Assumptions: []string{
+			"elements are single-line, without leading/trailing whitespace and without tabs (the legal alphabet of the property's quantifier for every line-oriented type)",
+			"a writer error on Close is recorded in the outcome label but only a wrong read-back is a violation",
+		},
+	})
+}
+
+func enumerate(quick bool, t treatment, fn func(l []string) bool) {
+	maxLen := 5
+	if quick {
+		maxLen = 4
+	}
+	cont := true
+	vlib.Seqs(len(t.alpha), 0, maxLen, func(idx []int) bool {
+		l := make([]string, len(idx))
+		for i, x := range idx {
+			l[i] = t.alpha[x]
+		}
+		cont = fn(l)
+		return cont
+	})
+	for _, n := range []int{10, 25, 50} {
+		for s := range t.alpha {
+			if !cont {
+				return
+			}
+			l := make([]string, n)
+			for i := range l {
+				l[i] = t.alpha[(s+i)%len(t.alpha)]
+			}
+			cont = fn(l)
+		}
+	}
+	for n := 1; n <= 3; n++ {
+		for p := 0; p < n; p++ {
+			if !cont {
+				return
+			}
+			l := make([]string, n)
+			for i := range l {
+				l[i] = t.filler
+			}
+			l[p] = t.bigEl
+			cont = fn(l)
+		}
+	}
+}
+
+func run(c *vlib.Ctx) {
+	mx.Init(c.WorkDir)
+	n := 0
+	tps := types()
+	if len(tps) < 5 {
+		c.HarnessError("only %d types register both WriteArray and ReadArray: %v", len(tps), tps)
+	}
+	c.Note("types with WriteArray and ReadArray: %s", strings.Join(tps, " "))
+	for _, dt := range tps {
+		for _, t := range treat(dt) {
+			if t.mode == "excluded" {
+				c.Note("not asserted — %s", t.reason)
+			}
+			stop := false
+			enumerate(c.Quick(), t, func(l []string) bool {
+				for _, level := range t.levels {
+					if !c.Next() {
+						continue
+					}
+					n++
+					if n&0xff == 0 && c.Expired() {
+						stop = true
+						return false
+					}
+					w := wit{level, dt, l}
+					res := check(w)
+					c.Eval(res.nontrivial, res.outcome)
+					if n%7919 == 1 {
+						c.Sample(map[string]any{"case": w, "observed": vlib.Clip(res.observed, 160)})
+					}
+					if t.mode == "excluded" {
+						c.Extra("not asserted (excluded type "+dt+")", 1)
+					}
+					if res.clause != "" {
+						mw, mres := minimise(w, res)
+						c.Violation(mres.clause, g3util.JSON(mw), mres.detail)
+					}
+				}
+				return true
+			})
+			if stop {
+				return
+			}
+		}
+	}
+}
+
+type result struct {
+	clause, detail string
+	nontrivial     bool
+	outcome        string
+	observed       string
+}
+
+// write serialises the list with the type's registered array writer and returns the stream.
+func write(dt string, list []string) (s *streams.Stdin, werr string, panicked string) {
+	defer func() {
+		if r := recover(); r != nil {
+			panicked = fmt.Sprint(r)
+		}
+	}()
+	s = streams.NewStdin()
+	s.SetDataType(dt)
+	s.Open()
+	defer s.Close()
+	aw, err := s.WriteArray(dt)
+	if err != nil {
+		return s, "WriteArray: " + err.Error(), ""
+	}
+	for i, e := range list {
+		if err := aw.WriteString(e); err != nil {
+			return s, fmt.Sprintf("WriteString(element %d): %v", i, err), ""
+		}
+	}
+	if err := aw.Close(); err != nil {
+		return s, "Close: " + err.Error(), ""
+	}
+	return s, "", ""
+}
+
+func readBack(s *streams.Stdin) (got []string, rerr string, panicked string) {
+	defer func() {
+		if r := recover(); r != nil {
+			panicked = fmt.Sprint(r)
+		}
+	}()
+	err := s.ReadArray(context.Background(), func(b []byte) { got = append(got, string(b)) })
+	if err != nil {
+		rerr = err.Error()
+	}
+	return
+}
+
+func shape(got, want []string) string {
+	switch {
+	case len(got) < len(want):
+		return "fewer"
+	case len(got) > len(want):
+		return "more"
+	}
+	return "altered"
+}
+
+func lenClass(l []string) string {
+	for _, e := range l {
+		if strings.Contains(e, bigToken) {
+			return "60KiB"
+		}
+	}
+	if len(l) > 5 {
+		return "long"
+	}
+	return fmt.Sprint(len(l))
+}
+
+func check(w wit) (res result) {
+	t := treat(w.Type)[0]
+	list := make([]string, len(w.List))
+	for i, e := range w.List {
+		list[i] = expand(e)
+		if !isFiller(e) {
+			res.nontrivial = true
+		}
+	}
+	label := func(s string) { res.outcome = fmt.Sprintf("%s %s len=%s %s", w.Type, w.Level, lenClass(w.List), s) }
+	fail := func(clause, kind, detail string) {
+		label(kind)
+		if t.mode == "excluded" {
+			label("excluded:" + kind)
+			return
+		}
+		res.clause, res.detail = clause, detail
+	}
+	norm := func(l []string) []string {
+		if !t.loose {
+			return l
+		}
+		o := make([]string, len(l))
+		for i, e := range l {
+			o[i] = strings.TrimSpace(e)
+		}
+		return o
+	}
+
+	s, werr, wpanic := write(w.Type, list)
+	if wpanic != "" {
+		label("writer-panic")
+		res.clause, res.detail = "no-panic", "array writer panicked: "+wpanic
+		return
+	}
+	if w.Level == "api" {
+		if werr != "" && !strings.HasPrefix(werr, "Close:") {
+			fail("api-roundtrip", "write-error", fmt.Sprintf("writing %s as a %s array failed: %s", g3util.ClipList(list), w.Type, werr))
+			return
+		}
+		got, rerr, rpanic := readBack(s)
+		res.observed = g3util.ClipList(got)
+		if rpanic != "" {
+			label("reader-panic")
+			res.clause, res.detail = "no-panic", "array reader panicked: "+rpanic
+			return
+		}
+		if rerr != "" {
+			fail("api-roundtrip", "read-error", fmt.Sprintf("%s array written from %s: ReadArray failed: %s (elements delivered before the error: %s; writer error: %q)", w.Type, g3util.ClipList(list), rerr, g3util.ClipList(got), werr))
+			return
+		}
+		if !g3util.EqualLists(norm(got), list) {
+			fail("api-roundtrip", shape(got, list), fmt.Sprintf("%s array written from %s read back as %s (writer error: %q)", w.Type, g3util.ClipList(list), g3util.ClipList(got), werr))
+			return
+		}
+		if werr != "" {
+			label("ok close-error")
+		} else {
+			label("ok")
+		}
+		return
+	}
+
+	// level foreach: the writer's bytes become the typed stdin of a murex foreach loop
+	if werr != "" && !strings.HasPrefix(werr, "Close:") {
+		fail("foreach-visits-each-once", "write-error", fmt.Sprintf("writing %s as a %s array failed: %s", g3util.ClipList(list), w.Type, werr))
+		return
+	}
+	doc, err := s.ReadAll()
+	if err != nil {
+		label("harness")
+		res.clause, res.detail = "harness", "cannot read the written stream back: "+err.Error()
+		return
+	}
+	if doc == nil {
+		doc = []byte{}
+	}
+	r := mx.Run(`<stdin> -> foreach v { out "<$v>" }`, &mx.Opt{Stdin: doc, StdinType: w.Type})
+	res.observed = g3util.Clip(r.Stdout, 200)
+	if cl, d := g3util.Universal(r); cl != "" {
+		label(cl)
+		res.clause, res.detail = cl, fmt.Sprintf("foreach over the %s array %s: %s", w.Type, g3util.ClipList(list), d)
+		return
+	}
+	var want strings.Builder
+	for _, e := range list {
+		want.WriteString("<" + e + ">\n")
+	}
+	got := r.Stdout
+	exp := want.String()
+	if t.loose {
+		got, exp = strings.ReplaceAll(got, "\n", ""), strings.ReplaceAll(exp, "\n", "")
+	}
+	if got != exp {
+		k := "altered"
+		if n := strings.Count(r.Stdout, ">\n"); n < len(list) {
+			k = "fewer"
+		} else if n > len(list) {
+			k = "more"
+		}
+		fail("foreach-visits-each-once", k, fmt.Sprintf("`<stdin> -> foreach v { out \"<$v>\" }` over the %s array %q (written from %s) printed %q (exit %d, stderr %q); expected one <element> line per element: %q",
+			w.Type, g3util.Clip(string(doc), 200), g3util.ClipList(list), g3util.Clip(r.Stdout, 300), r.Exit, g3util.Clip(r.Stderr, 200), g3util.Clip(exp, 300)))
+		return
+	}
+	label("ok")
+	return
+}
+
+// minimise: greedy deletion of elements, then replacement of elements by a plain filler, while the
+// same clause still fails.
+func minimise(w wit, res result) (wit, result) {
+	for changed := true; changed; {
+		changed = false
+		for i := 0; i < len(w.List); i++ {
+			cand := w
+			cand.List = append(append([]string{}, w.List[:i]...), w.List[i+1:]...)
+			if r := check(cand); r.clause == res.clause {
+				w, res, changed = cand, r, true
+				i--
+			}
+		}
+	}
+	for i := range w.List {
+		if isFiller(w.List[i]) {
+			continue
+		}
+		for _, f := range fillers {
+			cand := w
+			cand.List = append([]string{}, w.List...)
+			cand.List[i] = f
+			if r := check(cand); r.clause == res.clause {
+				w, res = cand, r
+				break
+			}
+		}
+	}
+	return w, res
+}
+
+func replay(c *vlib.Ctx, witness string) {
+	mx.Init(c.WorkDir)
+	var w wit
+	if err := json.Unmarshal([]byte(witness), &w); err != nil {
+		fmt.Println("witness is not a C15 case:", err)
+		return
+	}
+	res := check(w)
+	c.Eval(res.nontrivial, res.outcome)
+	if res.clause != "" {
+		c.Violation(res.clause, g3util.JSON(w), res.detail)
+	}
+}
